@@ -1061,3 +1061,192 @@ func c08DisableMarks(p *load.Program, r *core.Report) {
 		}
 	}
 }
+
+// c08IntensityCountsRestartsOnly: S17 — the restart intensity counts RESTARTS. In every strategy the
+// bookkeeping call (supCheckRestartIntensity, which records one more restart and reports whether the
+// limit is exceeded) is reached only behind the not-disabled edge of the test of the terminated
+// child's `disabled` flag: a disabled child stays down, its termination restarts nothing, and
+// counting it lets the supervisor end with "restart intensity exceeded" — taking the children of
+// its other specs with it — although nothing was restarted.
+func c08IntensityCountsRestartsOnly(p *load.Program, r *core.Report) {
+	rule := "C08.S17 intensity-counts-restarts-only"
+	r.Floor(rule, 3)
+	chk := p.Func("act", "", "supCheckRestartIntensity")
+	if chk == nil {
+		r.Unk(rule, "C08.S17|anchor", "", "", "supCheckRestartIntensity is found", "not found")
+		return
+	}
+	for _, f := range funcsOfPkgs(p, "act") {
+		if f.Parent() != nil || f.Name() != "childTerminated" {
+			continue
+		}
+		n := 0
+		eachInstr(f, func(in ssa.Instruction) {
+			c, ok := in.(*ssa.Call)
+			if !ok || staticCallee(c.Common()) != chk {
+				return
+			}
+			n++
+			fn := fname(f)
+			key := fmt.Sprintf("C08.S17|%s|intensity#%d", fn, n)
+			inst := "the restart is counted only for a child that is not disabled"
+			var enabled []Edge
+			eachInstr(f, func(x ssa.Instruction) {
+				u, ok := x.(*ssa.UnOp)
+				if !ok {
+					return
+				}
+				if _, path, okp := fieldPath(u); !okp || len(path) == 0 || path[len(path)-1] != "disabled" {
+					return
+				}
+				if _, fl, complete := boolEdges(u); complete {
+					enabled = append(enabled, fl...)
+				}
+			})
+			if len(enabled) > 0 && edgesDominate(enabled, in) {
+				r.OK(rule, key, fn, p.Pos(in.Pos()), inst, "the call is dominated by the false edge of the disabled test")
+			} else {
+				r.Bad(rule, key, fn, p.Pos(in.Pos()), inst, "the termination of a disabled child is counted as a restart although nothing restarts: a few of them make the supervisor terminate with 'restart intensity exceeded' and stop the children of its other specs")
+			}
+		})
+	}
+}
+
+// c08ActionAssignedWhereReturned: S18 — the strategy functions answer with a supAction value that
+// the supervisor interprets field by field (an empty terminate list together with a reason means
+// "terminate the supervisor"). The action is a local variable that several branches fill; a field
+// assigned in a branch that is then NOT taken to its return leaks into the answer of a later
+// branch. Every assignment to a field of the action is followed by the return of that action in
+// straight-line code: no conditional branch (the tests of a collecting loop apart) lies between the
+// assignment and the return.
+func c08ActionAssignedWhereReturned(p *load.Program, r *core.Report) {
+	rule := "C08.S18 action-fields-assigned-where-the-action-is-returned"
+	r.Floor(rule, 5)
+	for _, f := range funcsOfPkgs(p, "act") {
+		if f.Parent() != nil || f.Signature.Results().Len() != 1 || !strings.HasSuffix(f.Signature.Results().At(0).Type().String(), "act.supAction") {
+			continue
+		}
+		fn := fname(f)
+		var leak ssa.Instruction
+		var leakField string
+		stores := 0
+		eachInstr(f, func(in ssa.Instruction) {
+			st, ok := in.(*ssa.Store)
+			if !ok {
+				return
+			}
+			fa, ok := st.Addr.(*ssa.FieldAddr)
+			if !ok {
+				return
+			}
+			al, ok := fa.X.(*ssa.Alloc)
+			if !ok || !strings.HasSuffix(al.Type().String(), "act.supAction") {
+				return
+			}
+			stores++
+			if h := reaches([]Point{after(in)}, isReturn, func(x ssa.Instruction) bool {
+				_, isIf := x.(*ssa.If)
+				// the tests of a loop that collects the list (its header and the filters inside it)
+				// always come back to the code after the loop: only a branch outside any loop counts
+				return isIf && len(sccOf(x.Block())) == 0
+			}); h != nil {
+				leak = in
+				leakField = derefStruct(al.Type()).Field(fa.Field).Name()
+			}
+		})
+		if stores == 0 {
+			continue
+		}
+		key := "C08.S18|" + fn
+		inst := "every assignment to a field of the action is followed by its return without a conditional branch in between"
+		if leak == nil {
+			r.OK(rule, key, fn, p.Pos(f.Pos()), inst, fmt.Sprintf("%d field assignment(s), each in straight-line code up to a return", stores))
+		} else {
+			r.Bad(rule, key, fn, p.Pos(leak.Pos()), inst, "action."+leakField+" is assigned before a test that may not return: the value leaks into the answer of a later branch (an empty terminate list with a reason is read as 'terminate the supervisor')")
+		}
+	}
+}
+
+// c08StartModeEnds: S19 — an all-for-one / rest-for-one supervisor restarts its children one after
+// another in a "starting" mode during which EnableChild, StartChild, AddChild and DisableChild are
+// refused. The function that is told "this child has started" either answers with the next child to
+// start or leaves the mode: on every path taken while the mode is "starting", a return is preceded by
+// the assignment of the start-child action or by the reset of the mode. (With the trailing specs
+// disabled there is no next child — without the reset the supervisor refuses those calls for ever.)
+func c08StartModeEnds(p *load.Program, r *core.Report) {
+	rule := "C08.S19 starting-mode-ends"
+	r.Floor(rule, 1)
+	for _, f := range funcsOfPkgs(p, "act") {
+		if f.Parent() != nil || f.Name() != "childStarted" || f.Signature.Recv() == nil {
+			continue
+		}
+		st := derefStruct(f.Signature.Recv().Type())
+		if st == nil {
+			continue
+		}
+		hasMode := false
+		for i := 0; i < st.NumFields(); i++ {
+			if st.Field(i).Name() == "mode" {
+				hasMode = true
+			}
+		}
+		if !hasMode {
+			continue
+		}
+		var starts []Point
+		var startConst int64 = -1
+		eachInstr(f, func(in ssa.Instruction) {
+			b, ok := in.(*ssa.BinOp)
+			if !ok || (b.Op != token.NEQ && b.Op != token.EQL) {
+				return
+			}
+			c, okc := constInt(b.Y)
+			if !okc {
+				return
+			}
+			if bb, path, okp := fieldPath(b.X); !okp || len(path) != 1 || path[0] != "mode" || canon(bb) != ssa.Value(f.Params[0]) {
+				return
+			}
+			t, fl, complete := boolEdges(b)
+			if !complete {
+				return
+			}
+			in1 := t
+			if b.Op == token.NEQ {
+				in1 = fl
+			}
+			startConst = c
+			starts = append(starts, edgePoints(in1)...)
+		})
+		if len(starts) == 0 {
+			continue
+		}
+		fn := fname(f)
+		key := "C08.S19|" + fn
+		inst := "while in the starting mode every return either asks for the next child to be started or leaves the mode"
+		settles := func(in ssa.Instruction) bool {
+			s, ok := in.(*ssa.Store)
+			if !ok {
+				return false
+			}
+			if _, path, okp := fieldPath(s.Addr); okp && len(path) == 1 && path[0] == "mode" {
+				if c, okc := constInt(s.Val); okc && c != startConst {
+					return true
+				}
+			}
+			if fa, ok := s.Addr.(*ssa.FieldAddr); ok {
+				if ast := derefStruct(fa.X.Type()); ast != nil && ast.Field(fa.Field).Name() == "do" {
+					if c, okc := constInt(s.Val); okc && c != 0 {
+						return true
+					}
+				}
+			}
+			return false
+		}
+		if h := reaches(starts, settles, isReturn); h != nil {
+			r.Bad(rule, key, fn, p.Pos(h.Pos()), inst, "this return is reached in the starting mode without an action and without a reset of the mode: when every spec after the started child is running or disabled the supervisor stays in the starting mode and refuses EnableChild/StartChild/AddChild/DisableChild for ever")
+		} else {
+			r.OK(rule, key, fn, p.Pos(f.Pos()), inst, fmt.Sprintf("mode value %d: every return behind it passes an action assignment or a mode reset", startConst))
+		}
+	}
+}
